@@ -114,8 +114,6 @@ Proof. reflexivity. Qed.
 
 Lemma container_fuel_S : forall h, container_fuel h = S (S (Pos.to_nat (next h))).
 Proof. reflexivity. Qed.
-Lemma quick_fuel_S : quick_fuel = S 99.
-Proof. reflexivity. Qed.
 
 (* ================================================================== *)
 (* fuel monotonicity and the staged definitions                         *)
@@ -224,7 +222,7 @@ Proof.
 Qed.
 
 (* the staged definitions, with the first-stage fuel as a parameter (all reasoning is done
-   with a variable fuel so that nothing tries to compute with quick_fuel) *)
+   with a variable fuel so that nothing tries to compute with the constant first-stage fuel) *)
 Definition pstaged (q : nat) (h : heap) (v : value) : option bytes :=
   match pretty_fuel q h [] false false v with
   | Some b => Some b
@@ -235,10 +233,21 @@ Definition gstaged (q : nat) (h : heap) (v : value) : go_result :=
   | GoFuel => to_go_fuel (container_fuel h) h [] false v
   | r => r
   end.
-Lemma pretty_string_staged : forall h v, pretty_string h v = pstaged quick_fuel h v.
-Proof. intros. unfold pretty_string. unfold pstaged. apply eq_refl. Qed.
-Lemma to_go_value_staged : forall h v, to_go_value h v = gstaged quick_fuel h v.
-Proof. intros. unfold to_go_value. unfold gstaged. apply eq_refl. Qed.
+(* These two lemmas are the only place that looks at how Sem/Value.v chooses the fuel; they
+   are proved for BOTH variants of the model: the staged one (first stage [quick_fuel],
+   syntactically [pstaged quick_fuel]) and the plain one (full fuel only = first stage 0). *)
+Lemma pretty_string_staged : forall h v, exists q, pretty_string h v = pstaged q h v.
+Proof.
+  intros.
+  first [ timeout 5 (eexists; unfold pretty_string; unfold pstaged; apply eq_refl)
+        | exists 0%nat; reflexivity ].
+Qed.
+Lemma to_go_value_staged : forall h v, exists q, to_go_value h v = gstaged q h v.
+Proof.
+  intros.
+  first [ timeout 5 (eexists; unfold to_go_value; unfold gstaged; apply eq_refl)
+        | exists 0%nat; reflexivity ].
+Qed.
 
 Lemma pstaged_eq : forall q h v,
   pretty_fuel (container_fuel h) h [] false false v <> None ->
@@ -283,7 +292,7 @@ Qed.
 Theorem pretty_string_eq : forall h v,
   pretty_fuel (container_fuel h) h [] false false v <> None ->
   pretty_string h v = pretty_fuel (container_fuel h) h [] false false v.
-Proof. intros h v H. rewrite pretty_string_staged. now apply pstaged_eq. Qed.
+Proof. intros h v H. destruct (pretty_string_staged h v) as [q ->]. now apply pstaged_eq. Qed.
 
 Lemma pretty_string_of_full : forall h v b,
   pretty_fuel (container_fuel h) h [] false false v = Some b -> pretty_string h v = Some b.
@@ -292,12 +301,12 @@ Proof. intros h v b E. rewrite pretty_string_eq; [exact E|congruence]. Qed.
 (* and whatever pretty_string answers, some fuel answers *)
 Lemma pretty_string_inv : forall h v b, pretty_string h v = Some b ->
   exists n, pretty_fuel (S n) h [] false false v = Some b.
-Proof. intros h v b. rewrite pretty_string_staged. apply pstaged_inv. Qed.
+Proof. intros h v b. destruct (pretty_string_staged h v) as [q ->]. apply pstaged_inv. Qed.
 
 Theorem to_go_value_eq : forall h v,
   to_go_fuel (container_fuel h) h [] false v <> GoFuel ->
   to_go_value h v = to_go_fuel (container_fuel h) h [] false v.
-Proof. intros h v H. rewrite to_go_value_staged. now apply gstaged_eq. Qed.
+Proof. intros h v H. destruct (to_go_value_staged h v) as [q ->]. now apply gstaged_eq. Qed.
 
 Lemma to_go_value_of_full : forall h v r,
   to_go_fuel (container_fuel h) h [] false v = r -> r <> GoFuel -> to_go_value h v = r.
@@ -305,7 +314,7 @@ Proof. intros h v r E H. rewrite to_go_value_eq; [exact E|congruence]. Qed.
 
 Lemma to_go_value_inv : forall h v r, to_go_value h v = r -> r <> GoFuel ->
   exists n, to_go_fuel (S n) h [] false v = r.
-Proof. intros h v r. rewrite to_go_value_staged. apply gstaged_inv. Qed.
+Proof. intros h v r. destruct (to_go_value_staged h v) as [q ->]. apply gstaged_inv. Qed.
 
 (* From here on the two staged functions are only used through the lemmas above.  Telling
    the conversion oracle to unfold them last keeps Qed from comparing two separately
